@@ -32,6 +32,28 @@ static int cur_zero;
 static int cur_nest;
 static int in_nest;
 
+/* reply context the events carry while `rc on` is in force: it swallows the replies (what is replied is not part of
+ * C11; that the dispatcher behaves the same with and without a reply context is) */
+static int rc_on;
+static unsigned long rc_count;
+#ifdef __cplusplus
+class drv_reply_context : public reply_context
+{
+public:
+	int reply(const struct message *) __MPT_OVERRIDE { ++rc_count; return 0; }
+};
+static drv_reply_context drv_rc;
+# define EV_RC(ev) ((ev).reply = rc_on ? &drv_rc : 0)
+#else
+static int drv_rc_reply(MPT_INTERFACE(reply_context) *rc, const MPT_STRUCT(message) *msg)
+{ (void) rc; (void) msg; ++rc_count; return 0; }
+static MPT_INTERFACE(reply_context_detached) *drv_rc_defer(MPT_INTERFACE(reply_context) *rc)
+{ (void) rc; return 0; }
+static const MPT_INTERFACE_VPTR(reply_context) drv_rc_vptr = { drv_rc_reply, drv_rc_defer };
+static MPT_INTERFACE(reply_context) drv_rc = { &drv_rc_vptr };
+# define EV_RC(ev) ((ev).reply = rc_on ? &drv_rc : 0)
+#endif
+
 static int handler(void *arg, MPT_STRUCT(event) *ev)
 {
 	size_t r = (struct reg *) arg - regs;
@@ -85,6 +107,9 @@ static size_t table(MPT_STRUCT(command) **base)
 	*base = (MPT_STRUCT(command) *) (void *) (b + 1);
 	return b->_used / sizeof(**base);
 }
+/* registration whose element was reserved by the running op: its id is shown as "new" (which fresh id is handed out
+ * is free; the id itself is among the internals) */
+static size_t new_reg = (size_t) -1;
 static void put_state(void)
 {
 	MPT_STRUCT(command) *c;
@@ -95,7 +120,8 @@ static void put_state(void)
 		for (i = 0; i < n; i++) {
 			if (c[i].cmd && c[i].arg == (void *) &regs[r]) {
 				if (any++) fputc(',', stdout);
-				printf("%" PRIuPTR ">%zu", c[i].id, r);
+				if (r == new_reg) printf("new>%zu", r);
+				else printf("%" PRIuPTR ">%zu", c[i].id, r);
 			}
 		}
 	}
